@@ -228,7 +228,33 @@ type Stub struct {
 	Down func() bool
 	// LastReq is a copy of the last push-pull request sent through this stub.
 	LastReq *model.PushPullMessage
+	// inflight is the cancel function of the push-pull call being served (nil when none); GiveUp cancels it, as a
+	// caller does whose deadline passes or who goes away in the middle of a call.
+	inflight context.CancelFunc
+	gaveUp   bool
 }
+
+// Inflight tells whether a push-pull call of this stub is being served and has not been given up yet.
+func (s *Stub) Inflight() bool {
+	s.mu.Lock()
+	defer s.mu.Unlock()
+	return s.inflight != nil && !s.gaveUp
+}
+
+// GiveUp cancels the context of the call being served; the caller will see a Canceled error.
+func (s *Stub) GiveUp() {
+	s.mu.Lock()
+	c := s.inflight
+	if c != nil {
+		s.gaveUp = true
+	}
+	s.mu.Unlock()
+	if c != nil {
+		c()
+	}
+}
+
+var errGaveUp = fmt.Errorf("rpc error: code = Canceled desc = context canceled (harness: the caller gave up)")
 
 func cloneMsg[T proto.Message](in T, out T) T {
 	b, err := proto.Marshal(in)
@@ -261,7 +287,18 @@ func (s *Stub) ProcessPushPull(ctx context.Context, in *model.PushPullMessage, _
 	call := func() (*model.PushPullMessage, error) {
 		cctx, cancel := context.WithCancel(context.Background())
 		defer cancel()
-		return s.Svc().ProcessPushPull(cctx, cloneMsg(in, &model.PushPullMessage{}))
+		s.mu.Lock()
+		s.inflight, s.gaveUp = cancel, false
+		s.mu.Unlock()
+		out, err := s.Svc().ProcessPushPull(cctx, cloneMsg(in, &model.PushPullMessage{}))
+		s.mu.Lock()
+		gave := s.gaveUp
+		s.inflight, s.gaveUp = nil, false
+		s.mu.Unlock()
+		if gave {
+			return nil, errGaveUp
+		}
+		return out, err
 	}
 	out, err := call()
 	if fault == RPCDupRequest {
